@@ -60,7 +60,15 @@ func faultyPast(t *rapid.T, st *Store, rn datamodel.Node, tree *ShardNode, names
 			st.Missing = map[cid.Cid]bool{victim: true}
 			desc += "missing:"
 		}
-		switch rapid.IntRange(0, 3).Draw(t, "faultyOp") {
+		switch rapid.IntRange(0, 4).Draw(t, "faultyOp") {
+		case 4:
+			// a walk by count (the caller knows how many entries to expect and does not poll Done): it carries on past the
+			// error and past the end
+			desc += "counted-walk "
+			it := rn.MapIterator()
+			for steps := len(names) + rapid.IntRange(1, 3).Draw(t, "extraNext"); steps > 0; steps-- {
+				_, _, _ = it.Next()
+			}
 		case 0, 1:
 			desc += "iterate "
 			it := rn.MapIterator()
